@@ -614,7 +614,7 @@ theorem scan_escape (q : Char) (hq : q ≠ '\\') :
       simp only [escape, if_true, List.cons_append]
       refine Hd.star_iter (u := (some c, escape c cs ++ c :: rest))
         (us := [(some '\\', c :: (escape c cs ++ c :: rest))]) ?_ (ih hs' _ rest)
-      simp [strBody, m, step, hq, Ne.symm hq, clsTest, CItem.test]
+      simp [strBody, m, step, Ne.symm hq, clsTest, CItem.test]
       omega
     · simp only [escape, hc, if_false, List.cons_append]
       refine Hd.star_iter (u := (some c, escape q cs ++ q :: rest)) (us := []) ?_ (ih hs' _ rest)
@@ -630,7 +630,7 @@ theorem scan_escape (q : Char) (hq : q ≠ '\\') :
           simp [noTrailingBackslash] at hs
         | cons d ds =>
           have hd := head_escape_ne q hq cs d ds hcs
-          simp [strBody, m, step, hc, hd, Ne.symm hc, clsTest, CItem.test]
+          simp [strBody, m, step, hc, hd, clsTest, CItem.test]
       · simp [strBody, m, step, hc, hb, clsTest, CItem.test]
 
 theorem strRe_hd (q : Char) (hq : q ≠ '\\') (s : List Char) (hs : noTrailingBackslash s)
@@ -774,5 +774,80 @@ theorem intOf_strInt (z : Int) : Py.intOf (Py.strInt z) = z := by
         · rfl
       rw [this, ← h, Nat.ofDigitChars_ten_toDigits]
       omega
+
+/-! ## a whole line of strings through `v*=STRING` -/
+section line
+variable {cc : CharClasses}
+
+theorem skipWsAux_run (w : List Char) (hw : ∀ c ∈ w, isWs c = true) (c : Char) (hc : isWs c = false)
+    (t : List Char) : ∀ p, skipWsAux p (w ++ c :: t) = (lastOr p w, c :: t) := by
+  induction w with
+  | nil => intro p; simp [skipWsAux, hc, lastOr]
+  | cons d ds ih =>
+    intro p
+    have hd : isWs d = true := hw d (by simp)
+    simp only [List.cons_append, skipWsAux, hd, if_true, lastOr]
+    exact ih (fun x hx => hw x (by simp [hx])) (some d)
+
+theorem skipWsAux_all (w : List Char) (hw : ∀ c ∈ w, isWs c = true) : ∀ p, (skipWsAux p w).2 = [] := by
+  induction w with
+  | nil => intro p; rfl
+  | cons d ds ih =>
+    intro p
+    have hd : isWs d = true := hw d (by simp)
+    simp only [skipWsAux, hd, if_true]
+    exact ih (fun x hx => hw x (by simp [hx])) (some d)
+
+theorem tokenAt_string_nil (p : Option Char) : tokenAt cc .STRING (p, []) = none := by
+  simp [tokenAt, alternatives, firstMatch, pyMatchSt, Gen.Regexes.STRING, m, step]
+
+theorem tokenAt_string (i : StrItem) (hi : i.WF) (p : Option Char) (rest : List Char) :
+    tokenAt cc .STRING (p, encode i.q i.s ++ rest) = some (.str i.s, (some i.q, rest)) := by
+  have h := string_hd (cc := cc) i.q hi.2.1 i.s hi.2.2 p rest
+  rw [← STRING_shape] at h
+  have := firstMatch_hd (conv := Gen.Procs.STRING) (alts := []) h (by simp [encode])
+  rw [proc_string i.q hi.2.1 i.s] at this
+  exact this
+
+theorem quote_not_ws (q : Char) (hq : q = '"' ∨ q = '\'') : isWs q = false := by
+  rcases hq with h | h <;> subst h <;> decide
+
+theorem lineOf_length (items : List StrItem) (tail : List Char) : items.length ≤ (lineOf items tail).length := by
+  induction items with
+  | nil => simp
+  | cons i is ih => simp [lineOf, encode]; omega
+
+theorem tokensLoop_line (items : List StrItem) (hitems : ∀ i ∈ items, i.WF) (tail : List Char)
+    (htail : ∀ c ∈ tail, isWs c = true) :
+    ∀ (n : Nat), items.length ≤ n → ∀ (p : Option Char) (acc : List Py.Val),
+      (tokensLoop cc .STRING n (p, lineOf items tail) acc).1 = acc.reverse ++ items.map (fun i => Py.Val.str i.s) ∧
+      (tokensLoop cc .STRING n (p, lineOf items tail) acc).2.2 = [] := by
+  induction items with
+  | nil =>
+    intro n _ p acc
+    cases n with
+    | zero => simp [tokensLoop, lineOf, skipWs, skipWsAux_all tail htail]
+    | succ n =>
+      have h2 := skipWsAux_all tail htail p
+      simp only [tokensLoop, lineOf, skipWs]
+      generalize skipWsAux p tail = r at h2
+      obtain ⟨q, l⟩ := r
+      simp at h2; subst h2
+      simp [tokenAt_string_nil]
+  | cons i is ih =>
+    intro n hn p acc
+    cases n with
+    | zero => simp at hn
+    | succ n =>
+      have hi : i.WF := hitems i (by simp)
+      have hq := quote_not_ws i.q hi.2.1
+      have hskip : skipWs (p, lineOf (i :: is) tail) = (lastOr p i.ws, encode i.q i.s ++ lineOf is tail) := by
+        simp only [skipWs, lineOf, encode, List.cons_append]
+        exact skipWsAux_run i.ws hi.1 i.q hq _ p
+      simp only [tokensLoop, hskip, tokenAt_string i hi]
+      have := ih (fun j hj => hitems j (by simp [hj])) n (by simp at hn; omega) (some i.q) (.str i.s :: acc)
+      simpa using this
+
+end line
 
 end Re
